@@ -1,6 +1,6 @@
 #!/bin/sh
 # tools/claim.sh <ID>... : refresh manifest, baseline and evidence for the given properties
-set -e
+set +e
 cd /verif
 python3 tools/mkmanifest.py
 for id in "$@"; do
